@@ -14,7 +14,7 @@ SPEC = {
          "eval": "fun c => let '(q, t, g, ir) := c in check_de q t g ir", "per_shard": 150},
     ],
     "classes": {1: "some-of-null", 2: "non-finite-float", 3: "empty-tuple-variant", 4: "int128-unsupported"},
-    "n_quick": 1600, "n_thorough": 40000,
+    "n_quick": 1600, "n_thorough": 6400,
     "level": "proof",
     "what_violation": "to_value followed by from_value does not return the value",
     "rule": ("71 compiled serde types (serde-derive structs/enums of every variant form, options, string-keyed maps, "
